@@ -281,6 +281,17 @@ func (fr *frame) loopHead(li *loopInfo, st *State, entryPhis map[*ssa.Phi]T) {
 		c.active = append(c.active, li.key)
 		// the head block itself executes inside the loop; popped in endLoopBlocks
 	}
+	var snaps []stableSnap
+	if !c.scan {
+		snaps = c.snapshotStable(st, func(sc *stableCell) bool {
+			for _, in := range sc.stores {
+				if in.Parent() != fr.fn || li.blocks[in.Block()] {
+					return false
+				}
+			}
+			return true
+		})
+	}
 	if !c.scan {
 		if c.loopAll[li.key] {
 			c.havocAll(st)
@@ -327,6 +338,7 @@ func (fr *frame) loopHead(li *loopInfo, st *State, entryPhis map[*ssa.Phi]T) {
 			}
 		}
 	}
+	c.restoreStable(st, snaps)
 	for p := range entryPhis {
 		nv := c.fresh(phiName(p), c.R.SortOf(p.Type()))
 		fr.vals[p] = nv
